@@ -87,6 +87,15 @@ fn hostile_payload(rng: &mut StdRng, class: usize) -> Vec<u8> {
         // well-formed, deadlines at the edges of what the timeout header can say
         20 => valid_request("/hostile/deadline", &[("hostile", "1"), ("delay-ms", "30"),
                 ("timeout", ["0", "1", "999", "1000000", "18446744073709551615", "18446744073709551616", "00", "+5", " 7"][rng.gen_range(0..9)])], b"deadline"),
+        // typed methods of generated services given payloads their codec cannot decode: wrong JSON
+        // type with a long non-ASCII string (the error text quotes it), broken JSON, bad bincode
+        21 => {
+            let ch = ['\u{e9}', '\u{20ac}', '\u{1d11e}'][rng.gen_range(0..3)];
+            let text = format!("\"{}{}\"", "a".repeat(rng.gen_range(0..4)), ch.to_string().repeat(rng.gen_range(60..700)));
+            valid_request(["/p.q.Greeter/SayHello", "/c17.Probe/OptJ", "/Greeter/Say", "/c17.Probe/UnitJ"][rng.gen_range(0..4)], &[("hostile", "1")], text.as_bytes())
+        }
+        22 => valid_request(["/Greeter/SayHello", "/c17.Probe/OptB", "/Greeter/Say", "/Greeter/NoSuchMethod", "/c17.Probe/"][rng.gen_range(0..5)],
+                            &[("hostile", "1")], &[[0xffu8; 3].to_vec(), b"{".to_vec(), vec![], vec![7; 5000]][rng.gen_range(0..4)]),
         _ => valid_request(&format!("/{}", "é".repeat(rng.gen_range(30..120))), &[("hostile", "1")], b""), // long multi-byte route
     }
 }
@@ -96,9 +105,12 @@ async fn run(mut sim: Sim, seed: u64, streams: usize) -> Result<Value, String> {
     let keys = sim::sorted_keys(3, &mut sim.rng);
     // identity indexes: V and H are nodes 0 and 1; the adversary is registered as 100
     let a_key = keys[2];
+    // the victim also serves generated (typed, bincode / JSON) services
+    sim::WITH_GENERATED.with(|c| c.set(true));
     for k in &keys[..2] {
         sim.add_node(node_cfg(*k, &o)).map_err(|e| e.to_string())?;
     }
+    sim::WITH_GENERATED.with(|c| c.set(false));
     let (v, h) = (0usize, 1usize);
     let a_id = sim::peer_id_of(&a_key);
     sim.run.register_node(a_id, 100);
@@ -157,7 +169,7 @@ async fn run(mut sim: Sim, seed: u64, streams: usize) -> Result<Value, String> {
             }
             // one hostile stream
             hostile_streams += 1;
-            let class = rng.gen_range(0..21);
+            let class = rng.gen_range(0..23);
             let payload = hostile_payload(&mut rng, class);
             let ending = rng.gen_range(0..6);
             sim.run.obs(100, "adv.stream", json!({"class": class, "len": payload.len(), "ending": ending}));
@@ -209,9 +221,9 @@ async fn run(mut sim: Sim, seed: u64, streams: usize) -> Result<Value, String> {
         settle(&mut sim, rng.gen_range(0..30)).await;
         // abrupt end of the connection, in different ways; then reconnect
         match round % 3 {
-            0 => conn.close(rng.gen_range(0..1000u32).into(), b"bye"),
+            0 => conn.close(rng.gen_range(0..1000u32).into(), [&b"bye"[..], &[0xff, 0xfe, 0x00, 0xc3][..], &[0x80; 200][..]][rng.gen_range(0..3)]),
             1 => drop(conn),
-            _ => { ep.close(0u32.into(), b""); }
+            _ => { ep.close(u32::MAX.into(), &[0xc3, 0x28]); }
         }
         drop(ep);
         settle(&mut sim, 300).await;
